@@ -1881,7 +1881,10 @@ def run(scn, ch, log=False):
                         if nxt < len(exchanges) and nxt in order and order[nxt][1] != n:
                             res_i = results[i] if i < len(results) else None
                             idle = exchanges[i]["gap_ms"] * TICK
-                            if idle < min(scn["client"]["ka"], scn["server"]["keepalive_timeout"]) * 0.5 and res_i and res_i["done"]:
+                            # (the pool may hold another idle connection - e.g. one left by C02-F13 - and hand that one
+                            # out first: only a connection opened for the next exchange shows that this one was not reusable)
+                            fresh = not any(order[e_][1] == order[nxt][1] for e_ in order if e_ < nxt)
+                            if idle < min(scn["client"]["ka"], scn["server"]["keepalive_timeout"]) * 0.5 and res_i and res_i["done"] and fresh:
                                 moved = order[nxt][1]
                         if (own_close or moved) and not scn["client"]["force_close"] and not (cc and cc["cause"] in ("pool_timer", "stale_on_get", "peer")):
                             cls = "head" if rq["method"].upper() == "HEAD" else f"{rsp['status'] // 100}xx"
